@@ -47,8 +47,12 @@ class Boom(Exception):
         return "Boom()"
 
 
+LAST = [None]
+
+
 def boom(*a, **k):
-    raise Boom()
+    LAST[0] = Boom()
+    raise LAST[0]
 
 
 # --------------------------------------------------------------------------
@@ -285,6 +289,8 @@ def observe(case):
     except Boom as e:
         fr = template_frames(e.__traceback__, fnames)
         obs = ("runtime",) + (fr[-1] if fr else ("no-template-frame", 0))
+        if e is not LAST[0]:
+            obs += ("exception-object=other",)
         return (kind, want_file, line), obs, kind, srcs
     except jinja2.TemplateSyntaxError as e:
         fr = template_frames(e.__traceback__, fnames)
